@@ -405,6 +405,13 @@ def a_verdict(expect, obs, name):
         return ('resolve:resolved-without-full-match',
                 f'lookup {name!r} matches no defined pattern but gave {obs}')
     hk = expect['heading_kind']
+    if hk.endswith('+quantifier-comma:unquoted') and (
+            obs['kind'] != 'platform' or obs['marker'] != expect['marker']):
+        # one root cause whatever is returned instead: the heading never
+        # became a platform of its own
+        return ('resolve:unquoted-heading-with-quantifier-comma-not-matched',
+                f'lookup {name!r} should resolve to [[{expect["heading"]}]] '
+                f'(last definition fully matching) but gave {obs}')
     if obs['kind'] != 'platform':
         return (f'resolve:{obs["kind"]}:expected={hk}',
                 f'lookup {name!r} should resolve to [[{expect["heading"]}]] '
